@@ -254,6 +254,7 @@ func mBuildGen(dir string) map[string]string {
 }
 
 func mPrepare(c *core.Ctx) {
+	core.GuardDisk()
 	if menv != nil {
 		return
 	}
